@@ -769,8 +769,16 @@ def gen_invalid(ctx):
             d["classes"] = ["malformed-valid"]
 
 
+def gen_kf1(ctx):
+    """known finding KF1: range lists naming bits twice whose total width exceeds the storage width are accepted,
+    their getter always panics"""
+    mk_bf(ctx, 8, [mk_field("kf1_x", "arb", 9, [(0, 6), (0, 1)], access="r")], ["kf1"], rule="KF1 u9 over u8")
+    mk_bf(ctx, 32, [mk_field("kf1_y", "native", 64, [(0, 31), (0, 31)], access="r")], ["kf1"], rule="KF1 u64 over u32")
+
+
 def generate(seed, tier):
     ctx = Ctx(seed, tier)
+    gen_kf1(ctx)
     gen_scalar_contiguous(ctx)
     gen_signed(ctx)
     gen_arrays(ctx)
